@@ -21,14 +21,14 @@ NET_NOTE = ('Trusted: TLC; the TLA+ semantics (SatSem model enumeration, LraSem 
 def net(design, text, technique='TLC trace validation of recorded API histories against the TLA+ network specification (NetworkTrace)'):
     return dict(cat='model_checking', design=design, text=text, note=NET_NOTE, technique=technique)
 CHECKS.update({
- 'C07': net('3/C07', 'Seeded API histories on the real sat_core with all four theories attached are recorded call by call (results, hook events, full visible state) and every line is validated by TLC against NetworkTrace.tla: reported truth values entailed by clauses /\\ theories /\\ decisions (model enumeration), learnt clauses entailed at the moment they are learnt, false answers only on unsatisfiability, complete assignments are models.'),
- 'C08': net('3/C08', 'The same recorded histories (assume / pop / next / check with conflicts and backjumps): whenever the same set of assigned literals recurs, bounds, distance matrices and domains must be identical (history variable in the trace spec), and every assigned literal must be entailed by the standing decisions, so root level keeps only root consequences.'),
+ 'C07': net('3/C07', 'Seeded API histories on the real sat_core with all four theories attached are recorded call by call (results, hook events, full visible state) and every line is validated by TLC against NetworkTrace.tla: reported truth values entailed by clauses /\\ theories /\\ decisions (model enumeration), learnt clauses entailed at the moment they are learnt, false answers only on unsatisfiability, complete assignments are models. Implementation-shaped model SatCoreImpl (clause literal order, watch lists, trail, first-UIP analysis, check()) model-checked by TLC; every transition of its state graph and random walks over it are replayed on the library with exact comparison of answers, values and levels.'),
+ 'C08': net('3/C08', 'The same recorded histories (assume / pop / next / check with conflicts and backjumps): whenever the same set of assigned literals recurs, bounds, distance matrices and domains must be identical (history variable in the trace spec), and every assigned literal must be entailed by the standing decisions, so root level keeps only root consequences. Model-derived tests (SatCoreImpl, DiffLogicImpl, LraImpl) replayed with the state compared after every pop; learnt clauses recorded after an undo must still be entailed.'),
  'C09': net('3/C09', 'LRA-heavy histories: after every successful propagation the reported values satisfy every asserted relation in exact InfRat arithmetic, lie within the reported bounds, the bounds exclude no real solution (Fourier-Motzkin in TLA+), learnt clauses and false answers are justified by infeasibility.'),
- 'C10': net('3/C10', 'IDL/RDL histories: the reported distance matrix equals the Floyd-Warshall closure (TLA+) of the currently asserted constraints, negated ones included; no undecided constraint is decided by the distances; learnt explanations are entailed; inconsistency only with a negative cycle.'),
+ 'C10': net('3/C10', 'IDL/RDL histories: the reported distance matrix equals the Floyd-Warshall closure (TLA+) of the currently asserted constraints, negated ones included; no undecided constraint is decided by the distances; learnt explanations are entailed; inconsistency only with a negative cycle. Implementation-shaped model DiffLogicImpl (incremental update, predecessors, enforcing constraints, undo layers, the theory\'s own propagation of decided constraints with the reason it records) model-checked by TLC; every transition and random walks replayed on idl_theory and rdl_theory: matrices, atom values and recorded reasons compared.'),
  'C11': net('3/C11', 'Requests of the five relations between linear expressions before/after root tightening: constants must be entailed in every model, literals receive the relation as their meaning against which all later observations are judged, a request never changes the set of models.'),
  'C12': net('3/C12', 'Requests of the five relations between difference expressions and bounds/distance/equates queries: in every model the literal is true (false) only if the asserted constraints entail the relation (its negation); query answers equal the values computed in TLA+ from the logged variable-level matrix.'),
- 'C13': net('3/C13', 'Every constructor call (duplicates, complementary pairs, constants, root-assigned arguments, cache hits, pairwise and product encodings) with the clauses it emitted: the returned literal equals the formula in every model (eq/conj/disj), forces the cardinality constraint and excludes no satisfying argument assignment (amo/exo), and the request does not constrain existing variables.'),
- 'C14': net('3/C14', 'Object variables over domains of 1-3 values: exactly one value literal true in every model, reported domain = values whose literal is not false, equality literal true exactly in the models where both variables take the same value, over assume/pop/next histories.'),
+ 'C13': net('3/C13', 'Every constructor call (duplicates, complementary pairs, constants, root-assigned arguments, cache hits, pairwise and product encodings) with the clauses it emitted: the returned literal equals the formula in every model (eq/conj/disj), forces the cardinality constraint and excludes no satisfying argument assignment (amo/exo), and the request does not constrain existing variables. Implementation-shaped model ReifyImpl (the five constructors as written, with new_clause and root-level propagation) model-checked by TLC; every transition replayed on the library with exact comparison of the literal returned, the number of variables and their values.'),
+ 'C14': net('3/C14', 'Object variables over domains of 1-3 values: exactly one value literal true in every model, reported domain = values whose literal is not false, equality literal true exactly in the models where both variables take the same value, over assume/pop/next histories. Implementation-shaped model OvImpl (ov_theory on top of the model of the sat core\'s constructors) model-checked by TLC; every transition replayed on the library: answers, propositional values and allowed values compared.'),
 })
 PLAN_NOTE = ('Trusted: TLC; the TLA+ predicates of Plan.tla (exact InfRat arithmetic); the hooks (clauses as given, literal '
              'definitions, operator translations, guarded facts) and plan_driver\'s projection of the reported solution through '
@@ -63,8 +63,8 @@ CHECKS.update({
     text='Solved plans are executed tick by tick by the real executor with a scripted client (seeded delays from the starting / ending callbacks, failures between ticks) under several policies; TLC validates every recorded callback against the executor section of PlanTrace.tla (time advances by one unit, started once / ended once, start before end, not before the planned time, not in a tick in which a delay was requested, frozen times never move, everything due is dispatched) and re-validates every adapted plan with the Plan predicates.',
     technique='TLC trace validation of recorded executor callbacks + Plan validity of every adapted plan'),
  'C20': dict(cat='model_checking', design='3/C20',
-    note='Trusted: TLC; the ThreadPool / ParPivot models are hand-written abstractions of thread_pool.cpp and of the PARALLELIZE section of lra_theory::pivot (bound to the code by the differential run and by reading, not by thread-level traces); the OS produces the schedules of the real runs; C++ memory-model races are only observed through ThreadSanitizer.',
-    text='TLC explores every interleaving of the thread-pool protocol (mutex, shared condition variable, active counter, enqueue/join) and of the per-row pivot tasks with per-variable mutexes: join returns only when all tasks are done and always returns, watch-list updates are mutually exclusive, the result equals the sequential one (and the model without the mutex fails). The same linear-arithmetic call sequences are executed on the sequential and on the PARALLELIZE build under several pool sizes and ParTrace requires identical results, values, bounds and learnt clauses for every call; ThreadSanitizer runs the same sequences.',
+    note='Trusted: TLC; the ThreadPool / ParPivot models are hand-written abstractions of thread_pool.cpp and of the PARALLELIZE section of lra_theory::pivot (bound to the code by the differential run, by the pool executions validated by PoolTrace - events at the level a caller and the tasks see, not inside the mutex - and by reading); the OS produces the schedules of the real runs; C++ memory-model races are only observed through ThreadSanitizer.',
+    text='TLC explores every interleaving of the thread-pool protocol (mutex, shared condition variable, active counter, enqueue/join) and of the per-row pivot tasks with per-variable mutexes: join returns only when all tasks are done and always returns, watch-list updates are mutually exclusive, the result equals the sequential one (and the model without the mutex fails). The same linear-arithmetic call sequences are executed on the sequential and on the PARALLELIZE build under several pool sizes and ParTrace requires identical results, values, bounds and learnt clauses for every call; ThreadSanitizer runs the same sequences. The pool itself is driven as a pivot drives it (rounds of enqueue + join on pools of 1-8 workers): PoolTrace requires that every task ran exactly once before its join() returned, and a join() that does not return is a rejected hang event.',
     technique='exhaustive TLC model checking of the concurrency protocol + TLC-judged differential traces SEQ vs PARALLELIZE build'),
 })
 NOT_YET = {
